@@ -627,6 +627,12 @@ impl<W: Write + AsRawFd> ConcurrentLogBuilder<W> {
         if write_batch.buffer.is_empty() {
             return Err(empty_batch());
         }
+        // NOTE:  Once an append has failed the log takes no more batches.  A batch written after a
+        // failed fdatasync would be refused by the fsync queue anyway, but only after its frame had
+        // reached the file, where a later recovery would find a batch whose write returned an error.
+        if self.poison.load(atomic::Ordering::Relaxed) {
+            return Err(corruption_log_poisoned());
+        }
         let written = match self.write_cq.do_work(Arc::new(write_batch)) {
             Ok(written) => written,
             Err(err) => {
